@@ -5,6 +5,7 @@ package dq
 
 import (
 	"fmt"
+	"math"
 	"reflect"
 
 	"github.com/bradenaw/juniper/container/deque"
@@ -56,11 +57,13 @@ func (d *D) Arg(class int16) int {
 		return st.Cap - len(d.Model) // exactly the free space
 	case 8:
 		return st.Cap - len(d.Model) + 1
+	case 9:
+		return math.MaxInt // "at most this many extra": a no-op for Shrink (Grow skips it)
 	}
 	return 0
 }
 
-const ArgClasses = 9
+const ArgClasses = 10
 
 func (d *D) Index(class int16) int {
 	switch class {
@@ -311,7 +314,10 @@ func (d *D) Enabled() []seqx.Op {
 	for c := int16(0); c < ArgClasses; c++ {
 		if n := d.Arg(c); !seenArg[n] {
 			seenArg[n] = true
-			ops = append(ops, seqx.Op{K: OpGrow, A: c}, seqx.Op{K: OpShrink, A: c})
+			if n != math.MaxInt {
+				ops = append(ops, seqx.Op{K: OpGrow, A: c})
+			}
+			ops = append(ops, seqx.Op{K: OpShrink, A: c})
 		}
 	}
 	return ops
